@@ -273,8 +273,7 @@ impl MtexChunk {
         header.expect_magic(b"MTEX")?;
 
         // Read the entire chunk data
-        let mut data = vec![0u8; header.size as usize];
-        context.reader.read_exact(&mut data)?;
+        let mut data = crate::chunk_header::read_vec(context.reader, header.size as usize)?;
 
         // Parse null-terminated strings
         let mut filenames = Vec::new();
@@ -313,8 +312,7 @@ impl MmdxChunk {
         header.expect_magic(b"MMDX")?;
 
         // Read the entire chunk data
-        let mut data = vec![0u8; header.size as usize];
-        context.reader.read_exact(&mut data)?;
+        let mut data = crate::chunk_header::read_vec(context.reader, header.size as usize)?;
 
         // Parse null-terminated strings
         let mut filenames = Vec::new();
@@ -354,7 +352,7 @@ impl MmidChunk {
 
         // Each offset is a u32 (4 bytes)
         let count = header.size / 4;
-        let mut offsets = Vec::with_capacity(count as usize);
+        let mut offsets = Vec::with_capacity((count as usize).min(1 << 16));
 
         for _ in 0..count {
             let offset = context.reader.read_u32_le()?;
@@ -382,8 +380,7 @@ impl MwmoChunk {
         header.expect_magic(b"MWMO")?;
 
         // Read the entire chunk data
-        let mut data = vec![0u8; header.size as usize];
-        context.reader.read_exact(&mut data)?;
+        let mut data = crate::chunk_header::read_vec(context.reader, header.size as usize)?;
 
         // Parse null-terminated strings
         let mut filenames = Vec::new();
@@ -452,7 +449,7 @@ impl MwidChunk {
 
         // Each offset is a u32 (4 bytes)
         let count = header.size / 4;
-        let mut offsets = Vec::with_capacity(count as usize);
+        let mut offsets = Vec::with_capacity((count as usize).min(1 << 16));
 
         for _ in 0..count {
             let offset = context.reader.read_u32_le()?;
@@ -538,7 +535,7 @@ impl MddfChunk {
         }
 
         let count = header.size / 36;
-        let mut doodads = Vec::with_capacity(count as usize);
+        let mut doodads = Vec::with_capacity((count as usize).min(1 << 16));
 
         for _ in 0..count {
             let name_id = context.reader.read_u32_le()?;
@@ -622,7 +619,7 @@ impl ModfChunk {
         }
 
         let count = header.size / 64;
-        let mut models = Vec::with_capacity(count as usize);
+        let mut models = Vec::with_capacity((count as usize).min(1 << 16));
 
         for _ in 0..count {
             let name_id = context.reader.read_u32_le()?;
@@ -1428,8 +1425,7 @@ impl Mh2oChunk {
                     .reader
                     .seek(SeekFrom::Start((start_pos + offset_render) as u64))?;
 
-                let mut flags_data = vec![0u8; 8 * 8];
-                context.reader.read_exact(&mut flags_data)?;
+                let mut flags_data = crate::chunk_header::read_vec(context.reader, 8 * 8)?;
                 render_flags = Some(flags_data);
             }
 
@@ -1570,7 +1566,7 @@ impl MtfxChunk {
 
         // Each effect is a u32 (4 bytes)
         let count = header.size / 4;
-        let mut effects = Vec::with_capacity(count as usize);
+        let mut effects = Vec::with_capacity((count as usize).min(1 << 16));
 
         for _ in 0..count {
             let raw_flags = context.reader.read_u32_le()?;
